@@ -190,7 +190,15 @@ def make_directive(dname, sname):
             await self._pre("schema", da, context)
             return await nxt(schema, document, parsing_errors, operation_name, context, variables, initial_value)
 
-    Directive(dname, schema_name=sname)(Tagger())
+    impl = Tagger()
+    if dname in ("t1", "au"):
+        # an implementation whose hooks are INSTANCE attributes (bound in a constructor / set with setattr), not
+        # functions found on its class
+        bare = type("Impl_" + dname, (), {})()
+        for hook in ("on_post_input_coercion", "on_argument_execution", "on_field_execution", "on_pre_output_coercion", "on_schema_execution"):
+            setattr(bare, hook, getattr(impl, hook))
+        impl = bare
+    Directive(dname, schema_name=sname)(impl)
 
 
 class S:
